@@ -160,6 +160,7 @@ package server
 //@   modifies nothing
 
 //@ func (*LockManagerWaitQueue).MaxPriority
+//@   ghost lastMaxPriority[ref(self)] = result
 //@   trusted queue internals (wait queue), subject of C20
 //@   modifies nothing
 
@@ -169,7 +170,7 @@ package server
 
 //@ func (*LockManagerWaitQueue).RePushPriorityRingQueue
 //@   requires self != nil
-//@   at call ILockManagerRingQueue.Pop assert C04.repush.order: isnil(self.fastQueue) || len(self.fastQueue) == 0 || self.fastIndex < 0 || self.fastIndex >= len(self.fastQueue)
+//@   at call ILockManagerRingQueue.Pop assert C04.repush.order,C20.repush.order: isnil(self.fastQueue) || len(self.fastQueue) == 0 || self.fastIndex < 0 || self.fastIndex >= len(self.fastQueue)
 //@   ensures forallref(l, Lock, lockSame(l))
 //@   modifies LockManagerWaitQueue.*, LockManagerRingQueue.*, LockManagerPriorityRingQueue.*, LockManagerPriorityRingQueueNode.*, E_LJPserver_Lock, E_Pserver_Lock, E_Pserver_LockManagerPriorityRingQueueNode, E_int32
 
@@ -256,6 +257,7 @@ package server
 //@   modifies LockManager.waitLocks@self, LockManager.waited@self, LockManager.refCount, LockManagerWaitQueue.*, LockManagerRingQueue.*, LockManagerPriorityRingQueue.*, LockManagerPriorityRingQueueNode.*, LockQueue.*, Lock.aofTime, Lock.command, Lock.data, Lock.isAof, Lock.manager, Lock.protocol, Lock.refCount, E_LJPserver_Lock, E_Pserver_Lock, E_Pserver_LockManagerPriorityRingQueueNode, E_int32
 
 //@ func (*LockManager).GetWaitLock
+//@   ghost lastWaitLock[ref(self)] = result
 //@   requires self != nil && self.freeLocks != nil
 //@   ensures C04.live,C05.notaftertimeout: implies(result != nil, !result.timeouted && result.ackCount == 0xff)
 //@   assumes refDiscipline() && forallref(l, Lock, implies(old(l.refCount) == 0, lockSame(l)))
@@ -281,7 +283,7 @@ package server
 
 //@ func (*LockDB).RemoveLockManager
 //@   requires self != nil && lockManager != nil && lockManager.state != nil
-//@   ensures C17.reclaim.value: implies(lockManager.state.KeyCount != old(lockManager.state.KeyCount), lockManager.currentData == nil && lockManager.fastKeyValue == nil)
+//@   ensures C17.reclaim.value,C15.reclaim.value: implies(lockManager.state.KeyCount != old(lockManager.state.KeyCount), lockManager.currentData == nil && lockManager.fastKeyValue == nil)
 //@   ensures lockManager.locked == old(lockManager.locked) && lockManager.waited == old(lockManager.waited)
 //@   ensures C17.reclaim.onlyidle: implies(old(lockManager.refCount) != 0, lockManager.currentLock == old(lockManager.currentLock) && lockManager.currentData == old(lockManager.currentData) && lockManager.lockKey == old(lockManager.lockKey) && lockManager.freeLocks == old(lockManager.freeLocks) && lockManager.refCount == old(lockManager.refCount))
 //@   modifies protocol.LockDBState.KeyCount, FastKeyValue.count, FastKeyValue.lock, FastKeyValue.manager, LockDB.freeLockManagerHead, LockManagerLockQueue.*, LockManagerWaitQueue.*, LockManager.currentData@lockManager, LockManager.currentLock@lockManager, LockManager.fastKeyValue@lockManager, LockManager.freeLocks@lockManager, LockManager.lockKey@lockManager, LockManager.locks@lockManager, LockManager.refCount@lockManager, LockManager.waitLocks@lockManager, E_Pserver_LockManager, E_Pserver_Lock, MH_mapLL16JbyteJPserver_LockManager, MH_mapLL16JbyteJPserver_Lock
@@ -442,10 +444,6 @@ package server
 //@ spec func sectionAssumeOnly(m) = implies(m.refCount == 0, m.locked == 0 && m.currentLock == nil && !m.waited)
 //@ spec func engineUntouched(m) = m.locked == atsection(m.locked) && m.waited == atsection(m.waited) && forallref(l, Lock, l.locked == atsection(l.locked) && l.timeouted == atsection(l.timeouted) && l.expried == atsection(l.expried) && l.ackCount == atsection(l.ackCount))
 
-//@ func (*LockDB).doCheckLockWaitPriority
-//@   requires lockManager != nil && lock != nil && lock.command != nil
-//@   modifies nothing
-
 //@ func (*LockDB).checkLessLockVersion
 //@   requires self != nil && lockManager != nil && command != nil && lockManager.freeLocks != nil && implies(lockManager.currentLock != nil, lockManager.currentLock.command != nil)
 //@   ensures refDiscipline() && forallref(l, Lock, implies(old(l.refCount) == 0, lockSame(l)))
@@ -503,7 +501,14 @@ package server
 //@   ensures C04.ack.wake,C11.ack.wake: implies(calls(RemoveLock) >= 1, calls(wakeUpWaitLocks) >= 1)
 //@   modifies all
 
+//@ func (*LockDB).doCheckLockWaitPriority
+//@   requires self != nil && lockManager != nil && lock != nil && lock.command != nil
+//@   ensures C04.bypass.strict,C19.bypass.strict: implies(result && lockManager.waitLocks != nil, calls(MaxPriority) == 1 && lock.command.Rcount > ghost.lastMaxPriority[ref(lockManager.waitLocks)])
+//@   modifies nothing
+
 //@ func (*LockDB).cancelWaitLock
+//@   at call wakeUpWaitLocks assert C04.cancel.waited-flag: implies(old(lockManager.waited) && !lockManager.waited, calls(GetWaitLock) >= 1 && ghost.lastWaitLock[ref(lockManager)] == 0)
+//@   at call PriorityMutex.Unlock assert C17.cancel.waitcounter: implies(waitLock != nil && lockLocked == 0, lockManager.state.WaitCount == u32(old(lockManager.state.WaitCount) - 1)) && implies(waitLock == nil, lockManager.state.WaitCount == old(lockManager.state.WaitCount))
 //@   requires self != nil && lockManager != nil && command != nil && sectionInv(self, lockManager) && lockManager.freeLocks != nil
 //@   loop#1 invariant waitLock == nil || (!waitLock.timeouted && waitLock.command.LockId == command.LockId)
 //@   loop#2 invariant waitLock == nil || (!waitLock.timeouted && waitLock.command.LockId == command.LockId)
@@ -558,6 +563,8 @@ package server
 //@   modifies all
 
 //@ func (*LockDB).doTimeOut
+//@   at call PriorityMutex.Unlock assert C04.timeout.waited-flag,C19.timeout.waited-flag: implies(atsection(lockManager.waited) && !lockManager.waited, calls(GetWaitLock) >= 1 && ghost.lastWaitLock[ref(lockManager)] == 0)
+//@   at call RemoveLock assert C11.timeout.undo: implies(atsection(lock.ackCount) != 0xff && atsection(lock.command.Flag)&0x20 != 0, calls(ProcessRecoverLockData) == 1)
 //@   requires self != nil && lock != nil && lock.manager != nil && lock.manager.glock != nil
 //@   at call PriorityMutex.Lock after havoc Lock.*, LockManager.locked, LockManager.currentLock, LockManager.currentData, LockManager.locks, LockManager.waitLocks, LockManager.waited, LockManager.refCount, LockManager.lockKey, LockManager.fastKeyValue, LockManagerLockQueue.*, LockManagerWaitQueue.*, LockQueue.*, protocol.LockDBState.*, LockDB.status, LockDB.currentTime
 //@   at call PriorityMutex.Lock after assume sectionInv(self, lockManager) && lockManager.freeLocks != nil && sectionAssumeOnly(lockManager) && lock.manager == lockManager && implies(!lock.timeouted, lock.command != nil && lock.protocol != nil && lock.locked <= lockManager.locked)
